@@ -54,6 +54,12 @@ func run(c *mon.Ctx) {
 				rej = "identifier"
 				d := ref.GenSegDesc(r, false)
 				d.BadID = true
+				if r.Bool() {
+					// somebody else's descriptor under tag 2: a foreign identifier and a private body that
+					// need not look like segmentation syntax at all (at least the 9 bytes a descriptor has)
+					id := [][]byte{[]byte("ABCD"), []byte("cuei"), []byte("CUEJ"), {0, 0, 0, 0}, []byte("GA94")}[r.Intn(5)]
+					d = ref.SegDesc{Foreign: true, Tag: 0x02, Body: append(append([]byte{}, id...), r.Bytes(5+r.Intn(40))...)}
+				}
 				s.Descs = append(s.Descs, d)
 			}
 		}
